@@ -268,7 +268,7 @@ func scenario(w *sim.World) {
 			o := &op{id: len(s.ops), replica: ri, before: copyKnown(r.known)}
 			var val tla.Value
 			if s.kind == kGCounter {
-				o.amount = int32(1 + w.Choose(sim.KOp, 5))
+				o.amount = int32(w.Choose(sim.KOp, 6)) // 0 is a legal increment
 				o.add = true
 				val = tla.MakeNumber(o.amount)
 			} else {
